@@ -71,7 +71,7 @@ def overlap_stream(c, tmp, n):
         pairs.append((f"run_core 0 (mk_input true {core.zlist([sw.argid(x) for x in sw.case_args])} [] "
                       f"{core.zlist([sw.argid(x) for x in sw.combo_args] + [sw.argid(a)])} [] [] false false None)",
                       ["rejected" if outcome == "rejected" else outcome, calls]))
-    bad, _ = core.run_cases("Prelude Grid Perm Runner RunnerInst", pairs)
+    bad, _ = core.safe_run_cases(c, "Prelude Grid Perm Runner RunnerInst", pairs)
     return len(bad)
 
 
